@@ -104,6 +104,17 @@ func Mem(site string, write bool, p func() any) {
 		}
 		addr = rv.Pointer()
 		size = 1
+	case reflect.Slice:
+		// the backing array of a slice handed to a call: its length when only read, its capacity when filled
+		n := rv.Len()
+		if write {
+			n = rv.Cap()
+		}
+		if n == 0 {
+			return
+		}
+		addr = rv.Pointer()
+		size = uintptr(n) * rv.Type().Elem().Size()
 	default:
 		return
 	}
